@@ -15,17 +15,23 @@ CHECKS = {
   'technique': 'Coq proof over Gallina model + generated tables; differential correspondence',
  },
  'C05': {
-  'text': "Theorems, for all customised attribute sets and all integers, that the validate_native functions regenerated "
-          "from the source on every run equal the specification (range facets, hardware bounds, enumeration, nillability), "
-          "that the text-protocol and number-protocol enforcement paths give the same verdict for the same logical value, "
-          "and that occurrence counting gives the same verdict over XML and dict documents and is exactly min<=n<=max; "
-          "the path models are tied to /repo by differential evaluation and an end-to-end oracle drives generated services "
-          "through all six protocol families at every nesting position.",
+  'text': "Theorems, for all attribute sets and all values, that the validate_string/validate_native functions regenerated "
+          "from the source on every run equal the specification: integers (range facets, fixed-width bounds, enumeration, "
+          "nillability), Unicode (length in code points, whole-string pattern for every regex oracle, enumeration), "
+          "DateTime/Date/Time (range facets over the instant / day number / microsecond of the day, with the naive-value rule "
+          "and offset-independence); that every protocol's enforcement path (XML/SOAP element and attribute, "
+          "JSON/YAML/MessagePack, HttpRpc) equals that specification and hence gives the same verdict for the same logical "
+          "value; that occurrence counting, including array element vs array items, is exactly min<=n<=max identically over "
+          "XML, hierarchical and flat documents. Path models are tied to /repo by differential evaluation (~5,700 cases per "
+          "run) and an end-to-end oracle drives generated services through all six protocols at six nesting positions "
+          "(~24,000 requests per run).",
   'design_ref': 'DESIGN.md section 6 (C05)',
-  'note': TB + "Proved for the integer family, None handling and occurrence counting; Unicode length/pattern/enumeration, "
-          "lexical well-formedness of date/time/boolean literals are decided by the end-to-end oracle against a Python "
-          "reference predicate and lxml's XSD validator (listed findings in known_findings.json).",
-  'technique': 'Coq proof over source-generated validation functions + differential correspondence + e2e oracle',
+  'note': TB + "Decimal/Double ranges, Boolean, Duration, Uuid, Enum, alternative document forms (byte strings, numbers for "
+          "text-encoded types, YAML timestamps), null/absent and lexical well-formedness (lxml XSD as judge) are decided by "
+          "the direct oracle; the regex engine and the C08 date/time readers are parameters of the theorems; DateTime bounds "
+          "must be timezone-aware; Decimal digit facets are not part of the property. 20 findings listed (lexical leniencies; "
+          "ValueError from out-of-range date/time fields).",
+  'technique': 'Coq proof over source-generated validation functions (two fail-closed translators) + differential correspondence of every enforcement path + e2e oracle',
  },
  'C13': {
   'text': "Theorems over a trace model of WsgiApplication (handle_rpc / handle_error / handle_wsdl_request / the bounded "
@@ -60,6 +66,119 @@ CHECKS = {
           "sandbox's libxml2 at all, so no_network is covered by the proof obligation only. One finding family listed: "
           "internal entities referenced in ATTRIBUTE values are substituted by libxml2 on read.",
   'technique': 'Coq proof over source-generated parser configuration + libxml2 option model; differential correspondence; canary oracle',
+ },
+ 'C09': {
+  'text': "For every output protocol (SOAP 1.1/1.2, XmlDocument, JSON, YAML, MessagePack, msgpack-rpc, HttpRpc), chunked or not, "
+          "the WSGI response is handle_error applied to the first thing user code raises (listeners, method body, generator "
+          "result before/after its first item): a Fault is reported as itself with the documented status (413/404/405/401, "
+          "400 iff code is Client or Client.*, else 500; always 500 for SOAP) and round-trips code, message and nested detail; "
+          "any non-Fault exception yields the byte-identical constant Server/'Internal Error' fault (non-interference), and "
+          "the return value is never sent. Excluded and proved as such: HttpRpc carries no detail; XML-unrepresentable content "
+          "escapes; a chunked HttpRpc stream failing after its first chunk; the SOAP 1.2 client strips the message.",
+  'design_ref': 'DESIGN.md section 6 (C09)',
+  'note': TB + "19 theorems over a model interpreted over tables regenerated from error.py, _outbase.py, soap11.py, application.py "
+          "and server/wsgi.py on every run (class table, status chains, except-clause skeletons); 4 listed findings "
+          "(detail-lost, message-stripped, xml-unrepresentable escape, chunked streaming); byte level (lxml, json, yaml, "
+          "msgpack) trusted, the correspondence parses real bytes; which protocols serialise lazily is hand-written.",
+  'technique': 'Coq proof over a table-driven Gallina model; fail-closed ast translator (faultpipe); differential correspondence; byte-identity non-interference oracle',
+ },
+ 'C18': {
+  'text': "Calling a method through the in-process NullServer returns or raises the same native result a client obtains over "
+          "XmlDocument, Soap11 or JsonDocument, for every generated signature over the wrapped, out_bare, empty and field-wise "
+          "bare body styles, 0..n arguments, none/one/many return values, generators, faults and in-headers; both paths enter "
+          "the function exactly once with the same arguments between the same application events; keyword and positional "
+          "invocation are equivalent; an Ignored return reaches the direct caller and goes out as empty; NullServer(ostr=True) "
+          "returns exactly the wire response.",
+  'design_ref': 'DESIGN.md section 6 (C18)',
+  'note': TB + "Proved over an executable Gallina model of _FunctionCall.__call__, _cb_sync, Application.process_request, the "
+          "decorator's message synthesis, the ServerBase Ignored handling and the out-object-to-message step of XmlDocument, "
+          "Soap11 and HierDictDocument; the if/elif chains, is_out_bare(), the packing loops and the protocols' non-wrapped "
+          "branch are regenerated from the sources on every run (Gen/NullSrv.v). Codecs enter as a round-trip hypothesis "
+          "(C01/C02). Two wire-side regions are listed findings (XmlDocument non-wrapped replies, bare requests over dict "
+          "documents). Not modelled: @mrpc, aux contexts, async results, push output, Redirect, non-default message naming.",
+  'technique': 'Coq proof over a Gallina model of NullServer and the wire pipeline + fail-closed ast translator (nullsrv) + differential correspondence and NullServer-vs-wire oracle',
+ },
+ 'C07': {
+  'text': "For every application the generated WSDL 1.1 and its embedded schemas are well-formed; every QName reference (type, "
+          "base, element, message, binding, port) resolves to a definition in the document or an XSD builtin; every exposed "
+          "method is exactly one portType operation with a matching binding operation, messages and declared faults; "
+          "rebuilding in fresh processes under any hash seed gives byte-identical output; and a SOAP client generated from "
+          "the WSDL alone (zeep, in-process) produces requests the server accepts and decodes the replies to the values returned.",
+  'design_ref': 'DESIGN.md section 6 (C07)',
+  'note': TB + "Proved over a model of Wsdl11/XmlSchema/toposort2/get_namespace_prefix that takes its decisive tokens from the "
+          "source on every run (Gen/WsdlGen.v): prefix allocation; toposort2 totality and soundness; closure of WSDL "
+          "references; one operation per method with unique, paired bindings; closure of schema references under the "
+          "decidable wf_snap (checked per snapshot); order independence under key_injb or tier_sepb (about 85-90% of "
+          "generated snapshots; ties between identical complex twins in one tier are observed under hash seeds, not proved). "
+          "Six listed findings (foreign namespaces on message names, a bare class reused as a header, mutually recursive "
+          "types). Well-formedness of the bytes and the zeep client are exercised, not proved; populate_interface is not modelled.",
+  'technique': 'Coq proof over a Gallina model of the WSDL/XSD emitters + fail-closed ast translator (wsdlgen) + model-vs-bytes correspondence + byte oracle (references, hash seeds, zeep)',
+ },
+ 'C11': {
+  'text': "Theorems over an executable model of Spyne's method registry and request routing (decorator naming, ServiceMeta, "
+          "check_unique_method_keys, populate_interface/process_method, get_call_handles, every protocol's "
+          "method_request_string, HttpBase's pattern list and match_pattern), for ALL applications, names and requests: in "
+          "every application that constructs, a request naming n through any channel (XML root tag / SOAP body child, "
+          "dict-document single key, msgpack-rpc field, HttpPattern, last URL segment) runs exactly the one primary method "
+          "registered as n followed by its auxiliary methods, each once, and nothing else; a name nothing is registered under "
+          "(case, prefix, suffix, another namespace) runs nothing and yields ResourceNotFound; construction succeeds under "
+          "conditions that do not mention order, so every permutation of the service list constructs iff it did and routes "
+          "every request identically; two primary methods of one name, and two methods carrying the same HttpPattern, are "
+          "rejected. The routing tokens of the source are extracted on every run by a fail-closed translator and proved to "
+          "render the model's strings and branches; ~2,800 constructions (all permutations) and ~17,000 driven requests per run.",
+  'design_ref': 'DESIGN.md section 6 (C11)',
+  'note': TB + "Modelled, not verified: lxml .tag, json/msgpack key decoding, re full-match restricted to literal addresses "
+          "with <name> placeholders and literal non-empty verbs, host=None. @mrpc member methods, headers, non-WSGI servers, "
+          "ThreadAuxProc and HttpRpc POST are not driven. Order-independence of the HTTP pattern list assumes auxiliary "
+          "methods carry no HttpPatterns. Five defects repaired; no open finding.",
+  'technique': 'Coq proof over a Gallina model of registry + routing + source-extracted routing tokens (routekeys translator) + differential correspondence over applications x permutations x protocols + invocation-counter oracle',
+ },
+ 'C14': {
+  'text': "For both the WSGI transport and the ServerBase call sequence, for every outcome of the pipeline stages in the "
+          "property's alphabet and every set of event managers and listener behaviours, the event trace of the pipeline "
+          "programs REGENERATED from the current source is: created first / closed last exactly once; the function at most once "
+          "and only after a completed method_call; method_return_object iff normal return; method_exception_object iff the "
+          "call ends in a fault, followed by the matching document/string events; listeners run in registration order, once "
+          "per manager, inherited at class creation (induction over registration programs).",
+  'design_ref': 'DESIGN.md section 6 (C14)',
+  'note': TB + "Pipeline programs (context.py, server/_base.py, application.py process_request, server/http.py, server/wsgi.py "
+          "handle_rpc/handle_error/__finalize) are regenerated by a fail-closed ast translator on every run and the theorems "
+          "re-proved over them (exhaustive path exploration decided by vm_compute + a proved every-run-is-a-path lemma). "
+          "Generator/push/MTOM/aux paths are flagged, not modelled; protocol serialize/deserialize bodies are library steps "
+          "whose outcomes are observed inputs. One finding listed (ServerBase lets a serialiser exception escape).",
+  'technique': 'Coq proof over a statement-language model of the pipeline generated from source (pipeline translator) + path exploration with soundness lemma + induction over registration programs + trace correspondence + listener-level oracle',
+ },
+ 'C03': {
+  'text': "Theorems over an executable model of SimpleDictDocument/HttpRpc/_parse_qs. For every covered signature (nested "
+          "objects, arrays of objects, primitive arrays, any hier_delim), both strict_arrays settings, every conformant sparse "
+          "value and every permutation of its spelled pairs, the user function receives exactly that value with every array in "
+          "index order (sorted-array refinement of both branches + _s2cmi's rank invariant), end to end through every "
+          "admissible query-string encoding. Conversely the flattened form of an object maps back to an equal object. The "
+          "declared response headers reach start_response member by member with the exact body. The pinned tree's string sort "
+          "and the values the notation cannot carry are refuted with witnesses.",
+  'design_ref': 'DESIGN.md section 6 (C03)',
+  'note': TB + "The flatkeys translator proves the source tokens (_s2cmi as a function, the regex literal, the strict comparisons, "
+          "the empty marker, the index format, the _parse_qs separators) equal to the model's. Python re, sorted, dict order "
+          "and unquote are transcribed and tied by differential evaluation through real WSGI GETs. Theorems cover "
+          "validator=None, GET query strings, text leaves (codecs are C08) and wf_sig signatures (no '[' in names or delimiter, "
+          "distinct flat keys, non-recursive); the soft validator and non-ASCII escapes are oracle-only; POST needs werkzeug "
+          "and is unexercised. Two notation limits listed as findings (empty primitive array, all-None object).",
+  'technique': 'Coq proof (permutation invariance via sorted-array refinement) over a Gallina model + source-token translator (flatkeys) + differential correspondence through WsgiApplication + e2e oracle',
+ },
+ 'C15': {
+  'text': "For every history of derivation and evolution operations (primitive customization, customize with "
+          "child_attrs/child_attrs_all/child_attrs_noexc, Array/Iterable, Mandatory, subclassing, append_field/insert_field) "
+          "every previously existing class that does not refer to an evolved class keeps its record, snapshot, resolved "
+          "attributes, flat field table and validation verdicts; the derived class carries exactly the requested constraints "
+          "over the original's; added fields reach every customized variant; field order is declaration order, parents first.",
+  'design_ref': 'DESIGN.md section 6 (C15)',
+  'note': TB + "Proved over a class-store model of the repaired derivation code (5 fixes: Mandatory(Array) aliasing, inherited "
+          "_variants registry, Decimal max_str_len, caller dict mutation, re-derived __extends__) as an invariant over "
+          "operation histories; tied per run by snapshot correspondence after every step, an ast translator of 17 source "
+          "tokens (C15_source_shape, a syntactic tripwire) and a direct oracle; schema/protocol output order and hash-seed "
+          "independence are observed by the oracle, not proved. Outside the modelled language: parser/sanitizer/pk/fk/"
+          "values_dict/prot/store_as, Attributes.order, SelfReference/XmlData/XmlAttribute fields, nested child_attrs.",
+  'technique': 'Coq proof (frame invariant by induction over operation histories) over a class-store model + snapshot correspondence + fail-closed ast translator (derive) + direct oracle',
  },
 }
 NOT_APPLICABLE = {}
